@@ -708,7 +708,8 @@ class BlockDownloadStream(io.RawIOBase):
         if self._done:
             raise RuntimeError("All expected data has already been transmitted")
         # Can send up to 7 bytes at a time
-        data = b[0:7]
+        # Make a copy, the caller's buffer may be gone when a block has to be retransmitted
+        data = bytes(b[0:7])
         if self.size is not None and self.pos + len(data) >= self.size:
             # This is the last data to be transmitted based on expected size
             self.send(data, end=True)
